@@ -21,7 +21,8 @@ to rec.events and bumps rec.counters[kind].  `obj` is the object itself (kept al
   kind        obj                  old                      new
   put         wire                 value before             value stored
   prepare     wire                 .next before (or None)   .next stored
-  settle      wire                 value before             value after
+  settle      wire                 value before             value after                   (also emitted by the settleAll wrapper for a prepared wire
+                                                                                          whose Wire.settle() was never called: rec.synthetic_settles)
   settleAll   None                 len(Wire.prepared) in    len(Wire.prepared) out        (emitted at entry: 'settleAll', at exit: 'settled')
   clockAll    ClockDriverSimulator None                     None
   clock       leaf                 None                     None                          (emitted before the leaf's clock() runs)
@@ -78,6 +79,8 @@ class Recorder:
         self.icontract = False
         self.subscribers = []
         self._wrapped = []
+        self.pending = {}           # id(wire) -> [wire, last raw argument, settle events seen] since the last settleAll
+        self.synthetic_settles = 0
 
     # -- events
     def emit(self, kind, obj, old, new):
@@ -106,11 +109,16 @@ class Recorder:
         return self.events[mark:]
 
     # -- write post-conditions
-    def _written(self, kind, wire, raw, stored):
+    def _written(self, kind, wire, raw, stored, expect=None):
+        """post-condition of one write. raw: the argument of put/prepare; expect: for settle, the last prepared argument
+        (the settled value must be that argument reduced mod 2**width)."""
         self.post_evals += 1
         w = wire.width
         ok = isinstance(stored, numbers.Integral) and 0 <= stored < (1 << w)
-        if isinstance(raw, numbers.Integral):
+        if ok and isinstance(expect, numbers.Integral) and stored != expect & ((1 << w) - 1):
+            ok = False
+            raw = expect
+        if isinstance(raw, numbers.Integral) and expect is None:
             if raw != stored:
                 self.raw_oor += 1
                 cls = type(self.leaf).__name__ if self.leaf is not None else '<harness>'
@@ -163,6 +171,27 @@ class Recorder:
         for leaf, meth in self._wrapped:
             leaf.__dict__.pop(meth, None)
         self._wrapped = []
+
+
+def pending_count():
+    """number of pending (prepared, not yet settled) updates, or None when the library's bookkeeping cannot be sized.
+    Nothing else is assumed about Wire.prepared (list, dict, set ... or absent)."""
+    try:
+        import py4hw.base as B
+        return len(B.Wire.prepared)
+    except Exception:
+        return None
+
+
+def drop_pending():
+    """harness hygiene between cases: forget pending updates without changing the container's type"""
+    try:
+        import py4hw.base as B
+        p = B.Wire.prepared
+        if len(p):
+            p.clear()
+    except Exception:
+        pass
 
 
 def _path(w):
@@ -277,6 +306,11 @@ def install(sim=None, keep_events=True, contracts=False, wrap_leaves=True, max_e
                 new = self.__dict__.get('next')
                 rec.emit('prepare', self, old, new)
                 rec._written('prepare', self, val, new)
+                pend = rec.pending.get(id(self))
+                if pend is None:
+                    rec.pending[id(self)] = [self, val, 0]
+                else:
+                    pend[1] = val
                 return r
             patch(cls, 'prepare', prepare)
 
@@ -293,7 +327,10 @@ def install(sim=None, keep_events=True, contracts=False, wrap_leaves=True, max_e
                         rec.contract_bad.append(('settle', _path(self), str(e)))
                 new = self.__dict__.get('value')
                 rec.emit('settle', self, old, new)
-                rec._written('settle', self, None, new)
+                pend = rec.pending.get(id(self))
+                if pend is not None:
+                    pend[2] += 1
+                rec._written('settle', self, None, new, expect=pend[1] if pend is not None else None)
                 return r
             patch(cls, 'settle', settle)
 
@@ -303,11 +340,21 @@ def install(sim=None, keep_events=True, contracts=False, wrap_leaves=True, max_e
             def settleAll():
                 prev = rec.phase
                 rec.phase = 'settling'
-                rec.emit('settleAll', None, len(B.Wire.prepared), None)
+                rec.emit('settleAll', None, pending_count(), None)
+                before = {k: v[0].__dict__.get('value') for k, v in rec.pending.items()}
                 try:
                     return f_all()
                 finally:
-                    rec.emit('settled', None, None, len(B.Wire.prepared))
+                    # public effect of settling: the value each prepared wire holds now.  A library that settles
+                    # without calling Wire.settle() (refactored internals) is observed here instead.
+                    for k, (w, raw, nset) in list(rec.pending.items()):
+                        if nset == 0:
+                            rec.synthetic_settles += 1
+                            new = w.__dict__.get('value')
+                            rec.emit('settle', w, before.get(k), new)
+                            rec._written('settle', w, None, new, expect=raw)
+                    rec.pending = {}
+                    rec.emit('settled', None, None, pending_count())
                     rec.phase = 'propagating' if rec.in_cycle else prev
             patch(cls, 'settleAll', settleAll)
 
@@ -325,7 +372,7 @@ def install(sim=None, keep_events=True, contracts=False, wrap_leaves=True, max_e
             try:
                 return o_init(self, sys)
             finally:
-                rec.emit('constructed', self, None, len(B.Wire.prepared))
+                rec.emit('constructed', self, None, pending_count())
                 rec.phase = prev
         patch(S.Simulator, '__init__', __init__)
 
@@ -373,7 +420,7 @@ def install(sim=None, keep_events=True, contracts=False, wrap_leaves=True, max_e
             finally:
                 rec.in_cycle = False
                 rec.phase = 'idle'
-                rec.emit('cycle_end', self, len(B.Wire.prepared), self.total_clks)
+                rec.emit('cycle_end', self, pending_count(), self.total_clks)
                 rec.phase = prev
         patch(S.Simulator, '_clk_cycle', _clk_cycle)
 
